@@ -4,6 +4,7 @@ CONTRACT_MODULES = ["contracts.madx"]
 FUNCTIONS = ["MadxEval.__init__@callbacks"]
 RAC = "rac/c19.py"
 RAC_BUDGET = {"quick": 60, "thorough": 600}
+RAC_MIN = {"quick": 149, "thorough": 149}      # fewer run-time evaluations than this = the harness skipped its work: checker broken, not "held"
 DESIGN_REF = "DESIGN.md section 4, C19"
 TECHNIQUE = ("contract-based: the callback table and the grammar of the single evaluator class shared by the deferred and the immediate "
              "evaluation are decided on the real source (each callback bound to the operator function its rule stands for), the operator "
